@@ -4,3 +4,16 @@ open Emboss.Deps
 #print axioms C15_order_identity_if_sorted
 #print axioms C15_order_perm
 #print axioms C15_order_complete
+#print axioms C15_terminates
+#print axioms C15_tarjan_sccs
+#print axioms C15_cycle_iff
+#print axioms C15_ok_iff_closed
+#print axioms C15_order_independent
+#print axioms C15_order_least
+#print axioms C15_assert_cannot_fire
+#print axioms C15_groups_sorted
+#print axioms C15_dependency_edges
+#print axioms C15_import_edges
+#print axioms C15_self_import
+#print axioms C15_output_order_independent
+#print axioms C15_tarjan_sccs_literal
